@@ -52,8 +52,14 @@ func Seed() uint64 {
 }
 
 // Shard / Shards identify this process among the parallel shards of a run.
-func Shard() int  { n, _ := strconv.Atoi(os.Getenv("VERIF_SHARD")); return n }
-func Shards() int { n, _ := strconv.Atoi(os.Getenv("VERIF_SHARDS")); if n < 1 { n = 1 }; return n }
+func Shard() int { n, _ := strconv.Atoi(os.Getenv("VERIF_SHARD")); return n }
+func Shards() int {
+	n, _ := strconv.Atoi(os.Getenv("VERIF_SHARDS"))
+	if n < 1 {
+		n = 1
+	}
+	return n
+}
 
 // ---------------------------------------------------------------- stats
 
